@@ -117,7 +117,13 @@ let cmd_enc () =
   List.iter (fun line ->
     match split_on ' ' line with
     | [c; pc; name; args] ->
-      let ctx, core = if c = "R" then cr, Reduced else cf, Full in
+      let ctx, core =
+        if String.length c > 2 && String.sub c 0 2 = "D:" then begin
+          let name = String.sub c 2 (String.length c - 2) in
+          match List.find_opt (fun (k, _) -> string_of_str k = name) devices with
+          | Some (_, d) -> ctx_new d, (if is_avr8l d then Reduced else Full)
+          | None -> prerr_endline ("unknown device " ^ name); exit 2
+        end else if c = "R" then cr, Reduced else cf, Full in
       let pairs = if args = "-" then [] else List.map parse_arg (split_on ',' args) in
       let op = operation_of_name (str_of_string name) in
       let pcn = n_of_int (int_of_string pc) in
